@@ -36,6 +36,7 @@ type specCtx struct {
 	bound   map[string]Val
 	where   string
 	extra   map[string]string // pseudo-constants (e.g. loop measure)
+	consts  map[string]constant.Value // variables of all()/any() expansions: usable as constants
 }
 
 func (c *specCtx) clone() *specCtx {
@@ -194,6 +195,9 @@ func (c *specCtx) eval(x ast.Expr) (sv, error) {
 				return sv{Val: c.results[0]}, nil
 			}
 			return sv{}, c.errf("no result here")
+		}
+		if k, ok := c.consts[n.Name]; ok {
+			return c.konst(k), nil
 		}
 		if v, ok := c.bound[n.Name]; ok {
 			return sv{Val: v}, nil
@@ -803,6 +807,47 @@ func (c *specCtx) call(n *ast.CallExpr) (sv, error) {
 		return c.mk(b.T, ite(a.S, b.S, d.S)), nil
 	case "forall", "exists":
 		return c.quant(id.Name, args)
+	case "all", "any":
+		// all(i, lo, hi, body): finite conjunction over the constants lo..hi-1 (expanded here)
+		if len(args) != 4 {
+			return sv{}, c.errf("%s(i, lo, hi, body)", id.Name)
+		}
+		iv, ok := args[0].(*ast.Ident)
+		if !ok {
+			return sv{}, c.errf("%s: bad variable", id.Name)
+		}
+		lo, err := c.eval(args[1])
+		if err != nil {
+			return sv{}, err
+		}
+		hi, err := c.eval(args[2])
+		if err != nil {
+			return sv{}, err
+		}
+		if lo.c == nil || hi.c == nil {
+			return sv{}, c.errf("%s: bounds must be constants", id.Name)
+		}
+		l, _ := constant.Int64Val(lo.c)
+		h, _ := constant.Int64Val(hi.c)
+		var parts []string
+		for k := l; k < h; k++ {
+			cc := c.clone()
+			cc.bound[iv.Name] = Val{T: tInt, S: e.sc.idxLit(k)}
+			cc.consts = map[string]constant.Value{}
+			for n, v := range c.consts {
+				cc.consts[n] = v
+			}
+			cc.consts[iv.Name] = constant.MakeInt64(k)
+			b, err := cc.eval(args[3])
+			if err != nil {
+				return sv{}, err
+			}
+			parts = append(parts, b.S)
+		}
+		if id.Name == "all" {
+			return c.mk(tBool, and(parts...)), nil
+		}
+		return c.mk(tBool, or(parts...)), nil
 	case "len", "cap":
 		v, err := c.eval(args[0])
 		if err != nil {
